@@ -8,12 +8,12 @@ SPEC = {
     "id": "C26",
     "coq_props": ["Properties/C26.v", "Corr/C26.v"],
     "module": "MS.Properties.C26",
-    "theorems": ["C26_refuted", "C26_no_fault_refuted", "C26_faults_reachable", "C26_delivery_refuted",
+    "theorems": ["C26_no_fault", "C26_refuted", "C26_delivery_refuted",
                  "C26_stable_no_fault", "C26_stable_delivery", "C26_stable_complete", "C26_stable_progress"],
     "corr_require": "Require Import MS.Corr.C26.",
     "agrees": "C26.agrees",
     "in_domain": "C26.in_domain",
-    "model_prop": "fun k => implb (C26.in_domain k) (C26.model_prop k)",
+    "model_prop": "C26.model_prop",   # no fault / no race along EVERY recorded schedule (C26_no_fault has no guard)
     "n_quick": 45,
     "n_thorough": 1500,
     "shard": 60,
@@ -37,20 +37,22 @@ SPEC = {
         "Go harness (parent + bin/c26child), Python driver lib/vk.py",
     ],
     "assumptions": [
-        "guarded theorems are about the STABLE system: all replicas connected with pairwise distinct client addresses, no "
-        "stream.Send fails; connects/disconnects at quiescent points are validated by traces but not covered by a theorem",
+        "the delivery theorems are about the STABLE system: all replicas connected with pairwise distinct client addresses, no "
+        "stream.Send fails; C26_no_fault has no such guard",
         "the runtime detects a concurrent map write only while the writer is inside mapassign/mapdelete; the model's [race] flag "
         "marks every write that overlaps an iteration (what `go test -race` would report)",
         "gRPC transport itself is not modelled (fake stream objects)",
     ],
     "level": "proof",
-    "level_text": "Coq theorems on the interleaving LTS of sender goroutine / per-replica stream goroutines / unprotected map, for EVERY "
-                  "schedule, any number of replicas and TGs, any capacities: in the stable system no fault and no race is reachable "
-                  "(C26_stable_no_fault), delivered(r) ++ in-flight(r) = commit sequence (C26_stable_delivery: FIFO, nothing lost or "
+    "level_text": "Coq theorems on the interleaving LTS of sender goroutine / per-replica stream goroutines / RWMutex-protected map (the "
+                  "code after the fix of F22a/b), for EVERY schedule, any number of replicas and TGs, any capacities: C26_no_fault - from "
+                  "the empty server, under any interleaving of connects, failing Sends and disconnects with the fan-out (addresses may "
+                  "coincide), no runtime fault (concurrent map access, send on closed channel) and no racing map access is reachable; "
+                  "in the stable system delivered(r) ++ in-flight(r) = commit sequence (C26_stable_delivery: FIFO, nothing lost or "
                   "duplicated), completeness at quiescence (C26_stable_complete), the master never blocks by itself "
-                  "(C26_stable_progress). The full statement is refuted (C26_refuted; C26_faults_reachable, C26_delivery_refuted) and "
-                  "every witness is replayed on the real code: the master dies with 'send on closed channel' / 'concurrent map "
-                  "iteration and map write', a same-address reconnect loses its entry, a stalled replica blocks the WAL loop.",
+                  "(C26_stable_progress). The delivery clause of the full statement is still refuted for equal client addresses "
+                  "(C26_delivery_refuted, KNOWN-FINDING same-client-address) and a stalled replica blocks the WAL loop (KNOWN-FINDING "
+                  "stalled-replica); the pre-fix fault witnesses are regression schedules replayed on the real code.",
     "level_note": "PARTIAL in the sense of DESIGN §10: theorems are about the LTS; Go's scheduler, channels and the runtime's map "
                   "fault detection are its assumptions, tied to the code by trace validation of forced runs. No axioms. Guarded "
                   "(stable set of replicas). Modelled not verified: grpc_server.go GetWALStream, SendReplicationMessage; sender.go "
